@@ -96,7 +96,16 @@ func (c *wsConn) listen(ws *websocket.Conn) {
 	var in []byte
 	var err error
 
+	// The service lock orders this with stopWSHandler, which disconnects all
+	// registered connections: a connection that gets its socket after that
+	// must close it itself, or it would outlive the stop.
+	c.serv.mu.Lock()
 	c.ws = ws
+	stopping := c.serv.stopping || c.serv.stop == nil
+	c.serv.mu.Unlock()
+	if stopping {
+		c.ws.Close()
+	}
 
 	// Loop until an error is returned when reading
 	for {
